@@ -102,7 +102,7 @@ func (bq *Queue[Q]) Run() {
 			// The chain moved forward using elements from other sources (consensus).
 			for i := lastHeight; i < h; i++ {
 				old := bq.indexToPosition(i + 1)
-				if bq.queue[old] != bq.nilQ && bq.queue[old].GetIndex() == i {
+				if bq.queue[old] != bq.nilQ && bq.queue[old].GetIndex() == i+1 {
 					bq.len--
 					bq.queue[old] = bq.nilQ
 				}
